@@ -123,6 +123,9 @@ def havoc(eng, path, v, name):
 
 def havoc_kind(eng, path, v, name, spec):
     kinds = (spec or {}).get("kinds") or {}
+    from .symex import SymSet
+    if isinstance(v, SymSet) and isinstance(v.seq, MapList):
+        return SymSet(havoc_kind(eng, path, v.seq, name, spec))      # a set as a list in arbitrary order (E7)
     if isinstance(v, MapList) and name in kinds:
         from .values import fresh_maplist
         n = eng.fresh(name + "_len", IntS)
